@@ -5,6 +5,24 @@ package timeutil
 // Contracts for the deductive verifier in /verif (govc); comments only.
 
 /*@
+// Duration text (property C14).  durText is time.Duration's text; a non-zero
+// whole number of minutes loses its trailing "0s", a non-zero whole number of
+// hours its trailing "0m0s", every other value keeps the text as it is.
+func (Duration).String
+  ensures as_is: !(d != 0 && d % 60000000000 == 0) ==> sameView(str, durText(d))
+  ensures drops_zero_seconds: d != 0 && d % 60000000000 == 0 && d % 3600000000000 != 0 ==>
+    sameView(str, durText(d)[:len(durText(d)) - 2])
+  ensures drops_zero_minutes_and_seconds: d != 0 && d % 3600000000000 == 0 ==>
+    sameView(str, durText(d)[:len(durText(d)) - 4])
+  ensures parses_back: durParseOK(strid(str)) && durParse(strid(str)) == d
+
+func (Duration).MarshalText
+  ensures text_is_string: err == nil && durParseOK(strid(text)) && durParse(strid(text)) == d
+
 func (*Duration).UnmarshalText
   requires d != nil
+  modifies *d
+  ensures accepts: err == nil <==> durParseOK(strid(b))
+  ensures parsed: err == nil ==> deref(d) == durParse(strid(b))
+  ensures error_keeps: err != nil ==> deref(d) == old(deref(d))
 @*/
